@@ -212,6 +212,10 @@ func drawC19a(t *rapid.T) *gen.SchedWorld {
 	for i, np := range w.Pools {
 		if rapid.IntRange(0, 2).Draw(t, fmt.Sprintf("c19_limited%d", i)) == 0 {
 			np.Spec.Limits = v1.Limits{corev1.ResourceCPU: resource.MustParse(rapid.SampledFrom([]string{"0", "1", "2", "4", "8"}).Draw(t, fmt.Sprintf("c19_limit%d", i)))}
+			if rapid.IntRange(0, 2).Draw(t, fmt.Sprintf("c19_limitKind%d", i)) == 0 {
+				// a quota on an extended resource only some types carry (exhausted, or never granted)
+				np.Spec.Limits = v1.Limits{corev1.ResourceName(gen.GPU): resource.MustParse(rapid.SampledFrom([]string{"0", "0", "1", "2"}).Draw(t, fmt.Sprintf("c19_gpuLimit%d", i)))}
+			}
 		}
 	}
 	// some pools are not Ready (NodeClass not ready / not known yet, or never reconciled): they must not receive pods
@@ -234,6 +238,33 @@ func weightOf(np *v1.NodePool) int32 {
 
 // poolFeasible: could a node of this pool host the pod on its own (with the daemons that would run there)?
 // Karpenter-conservative: every taint of the pool (also PreferNoSchedule) must be tolerated.
+// poolFeasibleBeyondLimits: the pool can host the pod on an instance type that carries NONE of the resources the pool
+// limits (e.g. a CPU-only type in a pool that limits GPUs): no limit can make the pool infeasible for this pod.
+func (b *builtWorld) poolFeasibleBeyondLimits(np *v1.NodePool, pod *corev1.Pod) (bool, string) {
+	if len(np.Spec.Limits) == 0 {
+		return b.poolFeasible(np, pod)
+	}
+	filtered := *b.S
+	filtered.Catalog = nil
+	for _, it := range b.S.Catalog {
+		free := true
+		for r := range np.Spec.Limits {
+			if q, ok := it.Capacity[string(r)]; ok && q != "0" && q != "" {
+				free = false
+			}
+		}
+		if free {
+			filtered.Catalog = append(filtered.Catalog, it)
+		}
+	}
+	if len(filtered.Catalog) == 0 {
+		return false, ""
+	}
+	cp := *b
+	cp.S = &filtered
+	return cp.poolFeasible(np, pod)
+}
+
 func (b *builtWorld) poolFeasible(np *v1.NodePool, pod *corev1.Pod) (bool, string) {
 	for _, t := range np.Spec.Template.Spec.Taints {
 		tolerated := false
@@ -366,6 +397,39 @@ func execC19a(s *gen.SchedWorld, c *ev.Ctx) {
 		c.Class("schedule_error")
 		return
 	}
+	// limitsInert: nothing that exists or that this pass launches in the pool carries a resource the pool limits, so the
+	// pool's remaining quota is never negative (a pool that is OVER a limit launches nothing at all - documented) and a
+	// type carrying none of the limited resources stays launchable
+	limitsInert := func(y *v1.NodePool) bool {
+		carries := func(typeName string) bool {
+			it, ok := b.itSpec(typeName)
+			if !ok {
+				return true
+			}
+			for r := range y.Spec.Limits {
+				if q, ok := it.Capacity[string(r)]; ok && q != "0" && q != "" {
+					return true
+				}
+			}
+			return false
+		}
+		for _, bn := range b.Nodes {
+			if bn.Spec.Pool == y.Name && carries(bn.Spec.TypeName) {
+				return false
+			}
+		}
+		for _, nc := range res.NewNodeClaims {
+			if nc.NodePoolName != y.Name {
+				continue
+			}
+			for _, it := range nc.InstanceTypeOptions {
+				if carries(it.Name) {
+					return false
+				}
+			}
+		}
+		return true
+	}
 	multiFeasible := false
 	for _, nc := range res.NewNodeClaims {
 		x := b.Pools[nc.NodePoolName]
@@ -385,8 +449,9 @@ func execC19a(s *gen.SchedWorld, c *ev.Ctx) {
 			for _, y := range b.Pools {
 				if f, how := b.poolFeasible(y, p); f {
 					feasibleCount++
-					// (a heavier pool with limits may legitimately be exhausted)
-					if weightOf(y) > weightOf(x) && len(y.Spec.Limits) == 0 {
+					// (a heavier pool with limits may legitimately be exhausted - unless it can host the pod on a type that
+					// carries none of the limited resources)
+					if free, _ := b.poolFeasibleBeyondLimits(y, p); weightOf(y) > weightOf(x) && free && limitsInert(y) {
 						ok = false
 						witness = fmt.Sprintf("pod %s fits pool %s (weight %d) as %s", p.Name, y.Name, weightOf(y), how)
 					}
@@ -423,10 +488,9 @@ func execC19a(s *gen.SchedWorld, c *ev.Ctx) {
 			y := b.Pools[n]
 			if len(y.Spec.Limits) > 0 {
 				c.Class("errored_with_limited_pool")
-				continue
 			}
-			if f, how := b.poolFeasible(y, ep); f {
-				c.Violate("weight:unassigned-although-pool-feasible", "pod %s was left unassigned although pool %s (weight %d, no limits) can host it as %s", ep.Name, y.Name, weightOf(y), how)
+			if f, how := b.poolFeasibleBeyondLimits(y, ep); f && limitsInert(y) {
+				c.Violate("weight:unassigned-although-pool-feasible", "pod %s was left unassigned although pool %s (weight %d, limits %v cannot bind) can host it as %s", ep.Name, y.Name, weightOf(y), y.Spec.Limits, how)
 				break
 			}
 		}
@@ -438,7 +502,7 @@ func execC19a(s *gen.SchedWorld, c *ev.Ctx) {
 
 var propC19a = ev.Prop[gen.SchedWorld]{
 	ID: "C19", Test: "TestC19a",
-	Rule: "rapid draws 2-4 ready NodePools with weights (ties, nil), differing requirements / taints / labels over one catalog, pods without inter-pod constraints, preferences, OR-ed terms, minValues or reservations, a third of the pools with a small cpu limit (so that heavier pools run out during the pass), parallelism 1-8; Provisioner.Schedule runs; " +
+	Rule: "rapid draws 2-4 ready NodePools with weights (ties, nil), differing requirements / taints / labels over one catalog, pods without inter-pod constraints, preferences, OR-ed terms, minValues or reservations, a third of the pools with a small cpu limit or a (possibly zero) quota on an extended resource only some types carry (so that heavier pools run out during the pass), parallelism 1-8; Provisioner.Schedule runs; " +
 		"oracle: for every new NodeClaim of pool X some pod on it has no feasible heavier pool (feasible = some type/offering/label choice of the pool admits pod + daemons under the C01 admission oracle, all pool taints incl. PreferNoSchedule tolerated); non-trivial = some pod had >=2 feasible pools",
 	Assumptions: []string{"preferring a lighter pool over violating a PreferNoSchedule taint or over relaxing to a later OR-ed term is documented behaviour, so such pods are not generated / judged"},
 	Draw:        drawC19a, Exec: execC19a, ReplayTries: 10,
